@@ -438,7 +438,7 @@ def translate(fname, names):
         if fn.fuels: raise Unsupported(f"{name}: fewer while loops than declared")
         sig = " ".join(f"({x} : {COQ_TY[t]})" for x, t in spec["args"])
         init = "".join(f"let {v} := {DFLT[spec['locs'][v]]} in " for v in fn.state)
-        parts.append(f"(* {path}: def {name}({', '.join(want_args)}), line {node.lineno} *)")
+        parts.append(f"(* {path}: def {name}({', '.join(want_args)}) *)")
         parts.append(f"Definition py_{name} (fuel : nat) (N : net) (cfg : config) (sd_ : sd) {sig} : sd * result :=")
         parts.append(f"  {init}")
         parts.append("  s_finish\n" + textwrap.indent(pretty(f"({body} : {fn.flow_ty()})"), "    ") + ".")
